@@ -471,31 +471,58 @@ def eval_cond(c, val):
     if k == 'un' and c['op'] == '!':
         x = eval_cond(c['e'], val)
         return None if x is None else int(not x)
-    if k == 'bin' and c['op'] in ('==', '!=', '&&', '||'):
+    if k == 'bin' and c['op'] in ('&&', '||'):
+        a = eval_cond(c['l'], val)
+        if a is None:
+            return None
+        if c['op'] == '&&' and not a:
+            return 0
+        if c['op'] == '||' and a:
+            return 1
+        b = eval_cond(c['r'], val)
+        return None if b is None else int(bool(b))
+    if k == 'bin' and c['op'] in ('==', '!=', '<', '>', '<=', '>='):
         a, b = eval_cond(c['l'], val), eval_cond(c['r'], val)
         if a is None or b is None:
             return None
-        return int({'==': a == b, '!=': a != b, '&&': bool(a) and bool(b), '||': bool(a) or bool(b)}[c['op']])
+        return int({'==': a == b, '!=': a != b, '<': a < b, '>': a > b, '<=': a <= b, '>=': a >= b}[c['op']])
+    if k == 'cond':
+        t = eval_cond(c['c'], val)
+        if t is None:
+            return None
+        return eval_cond(c['a'] if t else c['b'], val)
     if k == 'call' and c.get('callee') == '__builtin_expect':
         return eval_cond(c['args'][0], val)
     return None
 
 
 def reply_block_table(fn, kind):
-    """Decision (skip / continue-evaluating) of the reply-serial block of an
-    evaluator as a function of (is_reply, requested_reply, allow, r.requested_reply, r.eavesdrop)."""
+    t6 = qualifier_table(fn, kind, from_reply=True)
+    return {(a[0], a[1], a[3], a[4], a[5]): v for a, v in t6.items() if a[2] == 0}
+
+
+def qualifier_table(fn, kind, from_reply=False):
+    """Decision (skip / continue-evaluating) of the qualifier region of an
+    evaluator - the eavesdrop tests (receive only) and the reply-serial block - as a
+    function of (is_reply, requested_reply, eavesdropping, allow, r.requested_reply, r.eavesdrop)."""
     start = None
+    cands = []
     for bid, blk in fn.blocks.items():
         t = blk.get('term')
-        if t and t.get('cond') is not None and any(
-                is_call(x, 'dbus_message_get_reply_serial') for x in walk(t['cond'])):
-            start = bid
-    if start is None:
+        if t and t.get('cond') is not None:
+            if any(is_call(x, 'dbus_message_get_reply_serial') for x in walk(t['cond'])):
+                cands.append((t['line'], bid, 'reply'))
+            if not from_reply and any(is_ref(x, 'eavesdropping') for x in walk(t['cond'])):
+                cands.append((t['line'], bid, 'eaves'))
+    if not any(c[2] == 'reply' for c in cands):
         raise AnalysisBroken('%s: reply-serial test not found' % fn.name)
+    start = min(cands)[1]
     heads = {dst for (src, dst) in back_edges(fn)}
     table = {}
-    for is_reply, req, allow, rreq, reav in itertools.product((0, 1), repeat=5):
+    for is_reply, req, eav, allow, rreq, reav in itertools.product((0, 1), repeat=6):
         def val(e):
+            if is_ref(e, 'eavesdropping'):
+                return eav
             if is_call(e, 'dbus_message_get_reply_serial'):
                 return 7 if is_reply else 0
             if is_ref(e, 'requested_reply') and e.get('kind') == 'param':
@@ -532,8 +559,93 @@ def reply_block_table(fn, kind):
                 raise AnalysisBroken('%s: unexpected block shape in the reply block' % fn.name)
         if verdict is None:
             raise AnalysisBroken('%s: reply block walk did not terminate' % fn.name)
-        table[(is_reply, req, allow, rreq, reav)] = verdict
+        table[(is_reply, req, eav, allow, rreq, reav)] = verdict
     return table
+
+
+def c06_3b(ck, prog):
+    r = ck.rule('C06.3b', 'the optimiser treats a rule as shadowing earlier ones exactly when the evaluator '
+                'can never skip it: qualifier bits enumerated (2^3 per rule kind) against the evaluator\'s own '
+                'skip logic, and each remaining skip attribute individually', 'DEC',
+                breaks='pruning of "shadowed" rules changes policy decisions', floor=20)
+    opt = prog.fn('bus_client_policy_optimize', 'bus/policy.c')
+    for kind in ('send', 'receive'):
+        ev_fn = prog.fn(*EVALS[kind])
+        qt = qualifier_table(ev_fn, kind)
+        # the predicate expression assigned to remove_preceding for this kind
+        pred = None
+        for b, i, ev in opt.events():
+            if ev['ev'] == 'assign' and is_ref(ev['e']['l'], 'remove_preceding') and \
+                    any((pol_field(x) or (None,))[0] == kind for x in walk(ev['e']['r'])):
+                pred = ev['e']['r']
+                line = ev['line']
+        if pred is None:
+            raise AnalysisBroken('optimiser predicate for %s rules not found' % kind)
+        maxfds = None
+        for f in (ev_fn, opt):
+            for b, i, ev in f.events():
+                for x in walk(event_expr(ev)):
+                    if is_int(x) and x.get('name') == 'DBUS_MAXIMUM_MESSAGE_UNIX_FDS':
+                        maxfds = x['v']
+            for blk in f.blocks.values():
+                t = blk.get('term')
+                if t and t.get('cond') is not None:
+                    for x in walk(t['cond']):
+                        if is_int(x) and x.get('name') == 'DBUS_MAXIMUM_MESSAGE_UNIX_FDS':
+                            maxfds = x['v']
+        if maxfds is None:
+            raise AnalysisBroken('DBUS_MAXIMUM_MESSAGE_UNIX_FDS not found in policy.c')
+        base = {'message_type': 0, 'path': 0, 'interface': 0, 'member': 0, 'error': 0, 'destination': 0,
+                'origin': 0, 'broadcast': 0, 'min_fds': 0, 'max_fds': maxfds, 'destination_is_prefix': 0,
+                'log': 0}
+
+        def predicate(fields, allow):
+            def val(e):
+                if is_member(e, 'allow', 'BusPolicyRule'):
+                    return allow
+                pf = pol_field(e)
+                if pf and pf[0] == kind:
+                    return fields.get(pf[1])
+                return None
+            v = eval_cond(pred, val)
+            if v is None:
+                raise AnalysisBroken('cannot evaluate the optimiser predicate for %s rules' % kind)
+            return bool(v)
+        for allow, rreq, reav in itertools.product((0, 1), repeat=3):
+            never_skipped = all(qt[(ir, rq, ea, allow, rreq, reav)] == 'apply'
+                                for ir in (0, 1) for rq in (0, 1) for ea in ((0, 1) if kind == 'receive' else (0,)))
+            f = dict(base, requested_reply=rreq, eavesdrop=reav)
+            got = predicate(f, allow)
+            key = '%s:allow=%d,requested_reply=%d,eavesdrop=%d' % (kind, allow, rreq, reav)
+            if got and not never_skipped:
+                r.violation(key, opt.name, opt.file, line,
+                            'a %s %s rule with requested_reply=%d eavesdrop=%d and no other attribute is treated '
+                            'as shadowing all earlier %s rules, but %s skips it for some messages'
+                            % ('allow' if allow else 'deny', kind, rreq, reav, kind, ev_fn.name))
+            else:
+                r.ok(key, {'catch_all': got, 'never_skipped': never_skipped})
+        # every other attribute that can cause a skip must defeat the predicate
+        others = {'message_type': 1, 'path': 1, 'interface': 1, 'member': 1, 'error': 1,
+                  'min_fds': 1, 'max_fds': 0}
+        if kind == 'send':
+            others.update({'destination': 1, 'broadcast': 1})
+        else:
+            others['origin'] = 1
+        for fld, v in others.items():
+            for allow in (0, 1):
+                f = dict(base, requested_reply=0 if allow else 1, eavesdrop=1 if allow else 0)
+                if kind == 'send' and not allow:
+                    f['eavesdrop'] = 0
+                f[fld] = v
+                key = '%s:%s-set,allow=%d' % (kind, fld, allow)
+                if predicate(f, allow):
+                    r.violation(key, opt.name, opt.file, line,
+                                'a %s rule that sets %s is still treated as shadowing every earlier %s rule'
+                                % (kind, fld, kind))
+                else:
+                    r.ok(key)
+    # own rules: catch-all iff no service name
+    # (prefix is only meaningful with a name; parser never sets prefix without one)
 
 
 def spec_reply(is_reply, req, allow, rreq, reav):
@@ -589,6 +701,7 @@ def run(ck):
         c06_1(ck, prog)
         c06_2(ck, prog)
         c06_3(ck, prog)
+        c06_3b(ck, prog)
         c06_4(ck, prog)
         c06_5(ck, prog)
         c06_6(ck, prog)
